@@ -165,6 +165,13 @@ def parse_text(b):
     return conv(x)
 
 
+def tofloat(txt):
+    try:
+        return float(txt)
+    except OverflowError:
+        return float("-inf") if txt.startswith("-") else float("inf")
+
+
 def overflow(t):
     k = t[0]
     if k in ("int", "flt"):
@@ -226,9 +233,9 @@ def ctree(t):
     if k == "bool":
         return "(JBool %s)" % ("true" if t[1] else "false")
     if k == "int":
-        return "(JNum true %s %s)" % (cz(int(t[1])), cb(fbits(float(t[1]))))
+        return "(JNum true %s %s)" % (cz(int(t[1])), cb(fbits(tofloat(t[1]))))
     if k == "flt":
-        return "(JNum false 0%%Z %s)" % cb(fbits(float(t[1])))
+        return "(JNum false 0%%Z %s)" % cb(fbits(tofloat(t[1])))
     if k == "str":
         return "(JStr %s)" % cbytes(t[1].encode("utf-8"))
     if k == "arr":
@@ -405,11 +412,6 @@ def run(ck, binary, run_impl, replay):
         if o.get("valid") is not True:
             ck.broken.append("harness:json-generator-produced-invalid-text")
             continue
-        if overflow(c["_tree"]):
-            if o["val"]["t"] != "null":
-                ck.violation("json:dec:number-overflow-accepted", {"part": NAME, "case": strip(c), "impl_out": o,
-                                                                   "clause": "a number outside binary64 must be rejected"})
-            continue
         try:
             dterms.append("{| jd_tree := %s; jd_assoc := %s; jd_obs := %s |}" % (
                 ctree(c["_tree"]), "true" if c["assoc"] else "false", copt(o["val"])))
@@ -425,6 +427,9 @@ def run(ck, binary, run_impl, replay):
             ck.violation("json:dec:clauses=1:%s" % ("assoc" if c["assoc"] else "default"), rp)
             continue
         t = c["_tree"]
+        if overflow(t):
+            ck.violation("json:dec:number-outside-binary64", dict(rp, key="json:dec:number-outside-binary64"))
+            continue
         if not c["assoc"]:
             if t[0] != "obj":
                 key = "json:dec:default:toplevel-" + ("array" if t[0] == "arr" else ("null" if t[0] == "null" else "scalar"))
@@ -451,8 +456,6 @@ def run(ck, binary, run_impl, replay):
         else:
             try:
                 t = parse_text(bytes.fromhex(c["hex"]))
-                if overflow(t):
-                    continue
                 extra.append((c, o, t))
             except Skip:
                 skipped += 1
@@ -465,6 +468,8 @@ def run(ck, binary, run_impl, replay):
         if 1 in cls:
             ck.broken.append("correspondence:C14.json-decode")
             ck.violation("json:dec:clauses=1:%s" % ("assoc" if c["assoc"] else "default"), rp)
+        elif overflow(t):
+            ck.violation("json:dec:number-outside-binary64", dict(rp, key="json:dec:number-outside-binary64"))
         elif not c["assoc"]:
             key = "json:dec:default:toplevel-" + ("array" if t[0] == "arr" else ("null" if t[0] == "null" else "scalar")) \
                 if t[0] != "obj" else "json:dec:default:int-token-outside-int64"
